@@ -203,6 +203,11 @@ def run_case(c):
             per[t] = {"dim": [int(v) for v in rng.integers(100, 900, 3)], "zs": float(np.round(rng.uniform(-30, 30), 1))}
         od, oz = [int(t) for t in rng.permutation(tomos + extra)], [int(t) for t in rng.permutation(tomos + extra)]
         dims = pd.DataFrame([[t] + per[t]["dim"] for t in od], columns=["tomo_id", "x", "y", "z"])
+        if rng.random() < 0.25:  # one (x, y, z) triple for all tomograms
+            one = [int(v) for v in rng.integers(100, 900, 3)]
+            dims = np.array(one, dtype=float) if rng.random() < 0.5 else pd.DataFrame([one], columns=["x", "y", "z"])
+            for t in tomos:
+                per[t]["dim"] = one
         zs = pd.DataFrame([[t, per[t]["zs"]] for t in oz])
         zform = int(rng.integers(0, 3))
         if zform == 1:
